@@ -33,12 +33,12 @@ func (r *runner) restarted(kind string, err error) string {
 
 var crashPoints = map[string]bool{"fields.tmpWritten": true, "fields.renamed": true, "fields.idxRemoved": true}
 
-func nat(s string) (int64, bool) {
-	v, err := strconv.ParseUint(s, 10, 62)
-	if err != nil || strconv.FormatUint(v, 10) != s {
+func intTok(s string) (int64, bool) {
+	v, err := strconv.ParseInt(s, 10, 62)
+	if err != nil || strconv.FormatInt(v, 10) != s {
 		return 0, false
 	}
-	return int64(v), true
+	return v, true
 }
 
 func (r *runner) Op(t []string) string {
@@ -65,17 +65,26 @@ func (r *runner) Op(t []string) string {
 		return r.restarted("clean", e.Reopen())
 	case t[0] == "crash" && len(t) == 1:
 		return r.restarted("kill", e.Crash(nil))
-	case (t[0] == "crashtorn" || t[0] == "crashtornend") && len(t) == 2:
-		j, ok := nat(t[1])
-		if !ok {
+	case t[0] == "wtorn" && len(t) >= 3:
+		j, ok := intTok(t[1])
+		if !ok || !e.ValidBatch(t[2:]) {
 			return "bad-op"
 		}
-		torn, err := e.CrashTorn(j, t[0] == "crashtornend")
-		kind := "kill"
-		if torn {
-			kind = "torn"
+		res, crashed, err := e.TornOp(j, func() string { return e.WriteOnly(t[2:]) })
+		if !crashed {
+			return "nocrash " + res + " " + r.seen()
 		}
-		return r.restarted(kind, err)
+		return r.restarted("torn", err)
+	case t[0] == "droptorn" && len(t) == 3:
+		j, ok := intTok(t[1])
+		if !ok || !shardh.ValidName(t[2]) {
+			return "bad-op"
+		}
+		res, crashed, err := e.TornOp(j, func() string { return e.DropMeasurement(t[2]) })
+		if !crashed {
+			return "nocrash " + res + " " + r.seen()
+		}
+		return r.restarted("torn", err)
 	case t[0] == "crashclose" && len(t) == 2:
 		if !crashPoints[t[1]] {
 			return "bad-op"
